@@ -14,7 +14,7 @@ PROPERTY = 'C07'
 LEAN_TARGETS = ['PxProofs.C07']
 THEOREMS = [
     'Px.Relay.C07_no_early_close', 'Px.Relay.C07_no_early_close_run', 'Px.Relay.C07_upstream_write_failure_drains',
-    'Px.Relay.C07_prompt', 'Px.Relay.C07_reads_off', 'Px.Relay.C07_only_shrinks',
+    'Px.Relay.C07_prompt', 'Px.Relay.C07_flushInv', 'Px.Relay.C07_reads_off', 'Px.Relay.C07_only_shrinks',
     'Px.Relay.C07_delivered', 'Px.Relay.C07_threaded', 'Px.Relay.C07_threaded_drains',
     'Px.Relay.C07_raised_only_app',
 ]
@@ -297,15 +297,15 @@ def systematic(depth):
 
 def generate(rng, tier):
     big = tier == 'thorough'
-    for c in systematic(3 if not big else 4):
+    for c in systematic(3 if not big else 5):
         yield c
-    for _ in range(900 if not big else 9000):
+    for _ in range(2500 if not big else 40000):
         yield gen_local(rng)
-    for _ in range(900 if not big else 9000):
+    for _ in range(2500 if not big else 40000):
         yield gen_upstream_close(rng, rng.choice(['tunnel', 'tunnel', 'http']))
     for _ in range(8 if not big else 60):
         yield gen_local(rng, big=True)
-    for _ in range(700 if not big else 7000):
+    for _ in range(1500 if not big else 20000):
         yield gen_shut(rng)
     for _ in range(6 if not big else 40):
         yield gen_shut(rng, big=True)
